@@ -7,6 +7,7 @@ import (
 	"go/constant"
 	"go/token"
 	"go/types"
+	"os"
 	"sort"
 	"strings"
 
@@ -225,9 +226,13 @@ func (e *Enc) enterLoop(fr *Frame, li *loopInfo, pre *State) *State {
 		head.cells[a] = v
 	}
 	// validity of havocked cells is assumed after next is havocked
+	// heaps that the body itself may write at objects that existed before the loop (writes that only
+	// initialise objects allocated inside the loop cannot touch preserved state)
 	direct := map[string]bool{}
 	for n := range mod.heaps {
-		direct[n] = true
+		if mod.nonFresh[n] || !strings.HasPrefix(n, "H_") {
+			direct[n] = true
+		}
 	}
 	if mod.allHeaps {
 		// lock ownership is only changed by the sync primitives (listed explicitly in modifies clauses)
@@ -271,6 +276,32 @@ func (e *Enc) enterLoop(fr *Frame, li *loopInfo, pre *State) *State {
 			}
 		}
 		head.heaps[n] = e.fresh(n+"_lh", old.S)
+	}
+	if mod.allScalar {
+		// a callee of the body writes scalar state that could not be resolved: nothing in the scalar
+		// heaps counts as untouched
+		for _, n := range hns {
+			if strings.HasPrefix(n, "H_") {
+				direct[n] = true
+			}
+		}
+	}
+	// a map that the body may modify is not iterated "each key exactly once"
+	if mod.allHeaps || mod.heaps["ML"] {
+		for it := range mod.iters {
+			if e.iterUnstable == nil {
+				e.iterUnstable = map[ssa.Value]bool{}
+			}
+			e.iterUnstable[it] = true
+		}
+	}
+	if os.Getenv("GOVC_DEBUG_SCALAR") != "" {
+		var dn []string
+		for n := range direct {
+			dn = append(dn, n)
+		}
+		sort.Strings(dn)
+		fmt.Fprintf(os.Stderr, "loop %s of %s: directly written heaps %v allHeaps=%v\n", label, e.Unit, dn, mod.allHeaps)
 	}
 	if mod.allHeaps && len(e.preserved)+len(e.deferredPres) > 0 {
 		// what unbounded-frame calls cannot reach, and the body does not write itself, survives the loop
